@@ -30,9 +30,10 @@ Weights == {0, 1, 2, 5}
 ASSUME \A p \in {P1, P2, P3, P4, P5} : \A i \in 1..4 : ParseUci(Cand(p)[i]) \in Legal(p)
 
 \* move index sequences without repetition, length 1..3 (order matters: it is the file order)
-Seqs(n) == UNION {{s \in [1..k -> 1..n] : \A i, j \in 1..k : i # j => s[i] # s[j]} : k \in 1..(IF Full THEN 3 ELSE 2)}
+Seqs(n) == UNION {{s \in [1..k -> 1..n] : \A i, j \in 1..k : i # j => s[i] # s[j]} : k \in 1..3}
+SeqsSmall(n) == {s \in Seqs(n) : Len(s) <= (IF Full THEN 3 ELSE 2)}
 Entry(p) == {[pos |-> p, moves |-> ms, weights |-> ws] :
-               ms \in Seqs(4), ws \in UNION {[1..k -> Weights] : k \in 1..3}}
+               ms \in SeqsSmall(4), ws \in UNION {[1..k -> Weights] : k \in 1..3}}
 GoodEntry(e) == Len(e.moves) = Len(e.weights) /\ \E i \in 1..Len(e.weights) : e.weights[i] > 0
 
 VARIABLES seedp, book
@@ -46,6 +47,10 @@ Next == /\ book = None
                 /\ e1.weights[1] = 1 /\ e2.moves = <<1, 2>>
                 /\ book' = [entries |-> <<e1, e2>>, trunc |-> 0]
            \/ \E trunc \in {0, 5, 15} : seedp = P1 /\ book' = [entries |-> <<>>, trunc |-> trunc]
+           \* weights that do not fit a signed byte / a signed 16-bit word (the field is an unsigned big-endian 16-bit number)
+           \/ \E ws \in {<<40000, 100>>, <<65535, 32768, 32767>>, <<256, 255>>, <<128, 32768>>, <<200, 129, 127>>} :
+                \E ms \in {s \in Seqs(4) : Len(s) = Len(ws)} :
+                   book' = [entries |-> <<[pos |-> seedp, moves |-> ms, weights |-> ws]>>, trunc |-> 0]
         /\ UNCHANGED seedp
 
 RECURSIVE Cat(_)
@@ -61,7 +66,8 @@ EntryOut(e) ==
       records |-> [i \in 1..n |-> <<ucis[i], e.weights[i], BookMoveCode(e.pos, ParseUci(ucis[i])),
                                     DecodeBookMove(e.pos, BookMoveCode(e.pos, ParseUci(ucis[i])))>>],
       best |-> {ucis[i] : i \in BestSet(e.weights)},
-      pick |-> [s \in 1..total |-> ucis[Pick(e.weights, s - 1)]]]
+      cum |-> [i \in 1..n |-> SumTo(e.weights, i)],
+      pick |-> IF total <= 64 THEN [s \in 1..total |-> ucis[Pick(e.weights, s - 1)]] ELSE <<>>]
 Line(b) == ToJson([bytes |-> BytesHex(b), nrecords |-> SumTo([i \in 1..Len(b.entries) |-> Len(b.entries[i].moves)], Len(b.entries)),
                    trunc |-> b.trunc, entries |-> [i \in 1..Len(b.entries) |-> EntryOut(b.entries[i])]])
 \* decoding a stored move gives back the move that was stored (spec self-check on every emitted record)
